@@ -195,6 +195,7 @@ def run_impl(script, retries, delay, reqs, loglevel=None, backend='stub', bauds=
         for op, build in reqs:
             del trace[:]
             t0 = clock.ms
+            sent0 = srv.serial_port.n_sent if backend == 'tty' else 0
             signal.alarm(alarm_s)
             try:
                 fr = build()
@@ -207,7 +208,7 @@ def run_impl(script, retries, delay, reqs, loglevel=None, backend='stub', bauds=
                 res = 'exn=' + C.exn_token(e)[1:]
             finally:
                 signal.alarm(0)
-            port = f' port={srv.serial_port.baudrate}' if backend == 'tty' else ''
+            port = f' port={srv.serial_port.baudrate}/{srv.serial_port.n_sent - sent0}' if backend == 'tty' else ''
             out.append(f'{res} dt={clock.ms - t0}{port} trace={trace_tokens(trace)}')
     finally:
         signal.signal(signal.SIGALRM, old)
